@@ -279,3 +279,31 @@ def absorb(out, ctx):
     tr = out.extra.setdefault("schedule_trace", [])
     if len(tr) < 240 and st.trace:
         tr.extend(st.trace[: 240 - len(tr)])
+
+
+# --------------------------------------------------------------------------
+# concurrent independent callers (Python threads) under the baton scheduler
+# --------------------------------------------------------------------------
+
+def run_concurrently(ctx, fns):
+    """Run the callables as simulated caller threads: exactly one runs at a time, pre-empted at source lines of
+    speckit/core.py (the NumPy kernels and helpers) in an order drawn from ctx's schedule stream.  Returns their results;
+    the first exception of a task propagates."""
+    from . import parfor, sched
+
+    results = [None] * len(fns)
+
+    def wrap(i):
+        def run():
+            results[i] = fns[i]()
+        return run
+
+    baton = sched.Baton(ctx.rnd, parfor._is_simulated, ctx.stats, ctx.policy)
+    old = ctx.baton
+    ctx.baton = baton
+    try:
+        baton.run([wrap(i) for i in range(len(fns))])
+    finally:
+        ctx.baton = old
+    ctx.count("concurrent_callers")
+    return results
